@@ -882,7 +882,7 @@ func (r *Run) mayNilResultField(fn *ssa.Function, ctx core.Ctx, fv *types.Var, d
 		if ri.Class != core.RetSuccess || len(ri.Ret.Results) == 0 {
 			continue
 		}
-		for _, leaf := range phiLeaves(ri.Ret.Results[0]) {
+		for _, leaf := range phiLeaves(core.RetOp(ri.Ret, 0)) {
 			if r.mayNilField(ff, ri.Facts, leaf, fv, depth) {
 				res = true
 			}
